@@ -24,3 +24,44 @@ Theorem C09_mode_agree : forall names defs ns st pos st',
   pass names defs true ns st pos Resolved = EOk (st', Resolved) ->
   pass names defs false ns st pos Resolved = EOk (st', Resolved).
 Proof. exact pass_agree. Qed.
+
+(* ===== the same theorems for the larger fragment of Model/Resolver2.v: #bankdef / #bank with per-bank cursors and
+   checked position arithmetic, nested symbols declared and referenced by dot level and path ===== *)
+From Coq Require Import NArith ZArith List Bool.
+From CA Require Import Model.Lexer Model.Parser Model.BigIntOps Model.Matcher Model.Evaluator Model.Resolver
+  Model.Resolver2 Spec.Certificate2 Proofs.Resolver2FixP Proofs.Resolver2MonoP Proofs.Resolver2TopP Proofs.Resolver2CertP
+  Proofs.Certificate2P.
+From CA Require Model.Overlap Model.Cursor Model.Output Model.Symbols Spec.OverlapSpec Spec.LayoutInv Proofs.OutputP.
+Import ListNotations.
+Open Scope Z_scope.
+
+Theorem C09b_monotone : forall indexed defs ps b b' r,
+  (1 <= b)%nat -> (b <= b')%nat ->
+  assemble2 indexed defs ps b = Ok r ->
+  exists n', assemble2 indexed defs ps b' = Ok (mkResult (r_bits r) (r_items r) (r_banks r) (r_syms r) n' (r_nodes r)).
+Proof. exact assemble2_budget_monotone. Qed.
+
+Theorem C09b_passes : forall indexed defs ps budget r,
+  assemble2 indexed defs ps budget = Ok r -> (r_iters r <= budget)%nat.
+Proof. exact assemble2_passes. Qed.
+
+Theorem C09b_mode_agree : forall m banks defs mb ns st st',
+  run_pass m banks defs mb true ns st = Ok (st', Resolved) ->
+  run_pass m banks defs mb false ns st = Ok (st', Resolved).
+Proof. exact run_pass_agree. Qed.
+
+Theorem C09b_address_mode_agree : forall mb b pos a,
+  Cursor.eval_address mb b pos false = Ok a -> Cursor.eval_address mb b pos true = Ok a.
+Proof. exact eval_address_mono. Qed.
+
+Theorem C09b_loop_monotone : forall m banks defs mb ns b b' st st' n,
+  labels_ok2 ns st -> syms_distinct2 ns -> (1 <= b)%nat -> (b <= b')%nat ->
+  loop2 m banks defs mb ns b 0 b st = Ok (st', n) ->
+  exists n', loop2 m banks defs mb ns b' 0 b' st = Ok (st', n').
+Proof. exact budget_monotone2. Qed.
+
+Example C09b_nonvacuous :
+  assemble2 true [] ex_prog2 1 = Err /\ exists r, assemble2 true [] ex_prog2 2 = Ok r /\ r_iters r = 2%nat.
+Proof. exact assemble2_budget_nonvacuous. Qed.
+
+(* ---------------- for Props/C06.v ---------------- *)
